@@ -97,6 +97,14 @@ func bufRetainResults(in, out []reflect.Value) {
 			retain(b)
 		}
 	}
+	// the arguments stay the caller's after the call, too: what they hold now (whatever a documented in-place
+	// function made of them) must not change during later calls — a library that keeps an argument (a pool, a
+	// cache keyed on the slice) and writes to it later writes to the caller's memory
+	for _, a := range args {
+		if len(a) > 0 {
+			retain(a[:len(a):len(a)])
+		}
+	}
 }
 
 func bufOverlap(a, b []byte) bool {
